@@ -28,6 +28,12 @@ func runAliasCtor(c *Case) []string {
 	isRat := ctor == "SqrtBigRat" || ctor == "CubeRootBigRat" || ctor == "FromBigRat"
 	if isRat {
 		rat = new(big.Rat).SetFrac(num, den)
+		if depth%4 == 0 {
+			// a Rat that is not in lowest terms (its numerator and denominator were set directly): same value
+			k := big.NewInt(int64(2 + depth%3*2))
+			rat.Num().Mul(rat.Num(), k)
+			rat.Denom().Mul(rat.Denom(), k)
+		}
 		onum, oden = new(big.Int).Set(rat.Num()), new(big.Int).Set(rat.Denom())
 	}
 	var x Num
@@ -409,6 +415,14 @@ func genC14(tier string, r *Rng, emit func(Case)) {
 			emit(c)
 		}
 	})
+	// views handed out earlier are not altered by deriving further views from them or by reading (C07's histories)
+	kv := 0
+	generators["C07"]("quick", r, func(c Case) {
+		if c.Op == "Hist" && kv < n && r.Intn(8) == 0 {
+			kv++
+			emit(Case{Ver: c.Ver, Op: "VHist", Args: c.Args})
+		}
+	})
 	// every search entry point with the pattern passed as a window of a longer caller-owned slice (runFind checks the
 	// slice around and, for the eager functions, inside the window afterwards)
 	for i := 0; i < 2*n; i++ {
@@ -427,5 +441,5 @@ func genC14(tier string, r *Rng, emit func(Case)) {
 
 func init() {
 	register("C14", genC14, map[string]runner{"AliasCtor": runAliasCtor, "AliasPat": runAliasPat, "AliasTest": runAliasTest,
-		"AliasList": runAliasList, "Hist": runC11Hist, "Find": runFind, "Sprint": runSprint})
+		"AliasList": runAliasList, "Hist": runC11Hist, "Find": runFind, "Sprint": runSprint, "VHist": runHist})
 }
